@@ -4,7 +4,7 @@ import material, report
 from checks import make_common as mc
 
 def mats(tier):
-    if tier == 'quick': return [material.parse(x) for x in ('KPk', 'Kkp', 'KRk', 'KNk', 'KRkr', 'KPkp')]
+    if tier == 'quick': return [material.parse(x) for x in ('KPk', 'Kkp', 'KRk', 'KRkr', 'KPkp', 'KRkp')]
     t5 = [material.parse(x) for x in ('KRRkr', 'KPPkp', 'KRPkp', 'KPkrr', 'KQPkp', 'KBNkp', 'KRkpp', 'KRRkp')]
     return material.M(3) + material.M(4) + t5
 
